@@ -176,6 +176,8 @@ type OpLog struct {
 // Invocation records one handler invocation.
 type Invocation struct {
 	RPC    string
+	MD     metadata.MD // incoming request metadata as the handler saw it at entry
+	MDOK   bool
 	Method string
 	Seq    int64
 	VT     time.Duration
@@ -370,8 +372,9 @@ func (s *svcImpl) invoked(ctx context.Context, method string) (*RPCSpec, string)
 		n = int(spec.invoked.Add(1))
 	}
 	l := s.env.Log
+	inMD, inOK := metadata.FromIncomingContext(ctx)
 	l.mu.Lock()
-	l.Invocations = append(l.Invocations, Invocation{RPC: tag, Method: method, Seq: l.seq.Add(1), VT: time.Since(l.start), N: n})
+	l.Invocations = append(l.Invocations, Invocation{RPC: tag, MD: inMD.Copy(), MDOK: inOK, Method: method, Seq: l.seq.Add(1), VT: time.Since(l.start), N: n})
 	l.mu.Unlock()
 	return spec, tag
 }
